@@ -56,7 +56,7 @@ ASSUMPTIONS = [
     'dictionary keys are ASCII str (documented restriction of dump); text is surrogate-free (UTF-8 encodable); '
     'tuples are not generated (documented to come back as lists)',
     'integers are bounded by |v| <= 10**400 (CPython refuses int<->str beyond 4300 digits; not a cpppo limit)',
-    'nesting depth <= 48 (3 Python frames per level in dump; far below the interpreter recursion limit)',
+    'nesting depth <= ~50 (3 Python frames per level in dump; kept far below the interpreter recursion limit)',
     'chunks are non-empty (a zero-length recv means EOF to tnet_from); chunks longer than 4096 bytes are delivered to '
     'tnet_from in 4096-byte reads, as network.recv would',
     'the streaming machine is required to handle only a SIZE of 1..9 ASCII digits (grammar in tnet.py); '
@@ -440,7 +440,7 @@ def machine_supports(v):
 
 
 def run_machine(wire, chunks, bounds, frames, case, stats, clause):
-    """frames: [(expected_value | _UNIMPL, supported?, end_offset)].  Feeds `chunks` the way tnet_from does."""
+    """frames: [(expected_value | _Unknown, supported?, end_offset)].  Feeds `chunks` the way tnet_from does."""
     cpppo, tnet, _ = _impl()
     source = cpppo.chainable()
     pending = collections.deque(chunks)
@@ -998,11 +998,11 @@ def atheris_child(argv):
     with atheris.instrument_imports(include=['cpppo']):
         import cpppo  # noqa: F401
         from cpppo.server import tnet, tnetstrings  # noqa: F401
-    state = {'execs': 0, 'in_domain': 0, 'fails': [], 'classes': collections.Counter()}
+    state = {'execs': 0, 'in_domain': 0, 'out_of_domain': 0, 'fails': [], 'classes': collections.Counter()}
 
     def flush():
         with open(out + '.tmp', 'w') as f:
-            json.dump({'execs': state['execs'], 'in_domain': state['in_domain'], 'fails': state['fails'][:20],
+            json.dump({'execs': state['execs'], 'in_domain': state['in_domain'], 'out_of_domain': state['out_of_domain'], 'fails': state['fails'][:20],
                        'classes': dict(state['classes'])}, f)
         os.replace(out + '.tmp', out)
 
@@ -1024,6 +1024,8 @@ def atheris_child(argv):
             # 1. the input as it is, if it starts like a frame
             if _SIZE.match(data):
                 judge(data)
+            else:
+                state['out_of_domain'] += 1
             # 2. the input read as <tail length> DATA TAG TAIL, framed with the right SIZE (so that the mutations
             #    libFuzzer makes land in DATA/TAG/TAIL instead of breaking the length)
             if len(data) >= 2:
@@ -1066,6 +1068,8 @@ def shard_atheris(job):
                                       % (doc['execs'], runs, p.returncode, p.stderr[-600:]))
         s.extra['atheris_execs'] = doc['execs']
         s.extra['atheris_in_domain_inputs'] = doc['in_domain']
+        s.exclude('atheris input taken as-is but not starting with a SIZE of 1-9 digits and ":" (still judged in its re-framed reading)',
+                  doc.get('out_of_domain', 0))
         for c, k in doc['classes'].items():
             s.count(c, k)
         # in-domain inputs were each evaluated twice (whole, bytewise) by the very same predicate
